@@ -613,7 +613,8 @@ private:
       using row_buffer_helper_t = Buffer;
       using it_t = typename row_buffer_helper_t::iterator_t;
 
-      std::size_t size_to_allocate = buffer_size< typename View::value_type >( dst_view.width()
+      // the row buffer holds elements of the file's type, which a converting read makes different from the view's
+      std::size_t size_to_allocate = buffer_size< typename row_buffer_helper_t::element_t >( dst_view.width()
                                                                              , is_view_bit_aligned_t() );
       row_buffer_helper_t row_buffer_helper( size_to_allocate, true );
 
